@@ -118,25 +118,29 @@ def build_registry(spec, variant=0):
     eul = spec["eul"]
     ns, nv = {"none": (0, 0), "s1": (1, 0), "v1": (0, 1), "s1v1": (1, 1), "s2v2": (2, 2)}[eul]
     dx = 0.25
-    origin = np.full(dim, dx / 2)
+    # grid geometry of this registry: per ARRAY-axis coordinate of the first cell centre (default dx / 2 on every
+    # axis), spacing and size, each with the deviations the mismatch cases ask for
+    base_origin = np.array(spec.get("pos_origins", [dx / 2] * dim), dtype=np.float64)
+    shift = spec.get("origin_shift", 0.0)
+    origin = base_origin * spec.get("origin_scale", 1.0) + (np.array(shift, dtype=np.float64) if isinstance(shift, (list, tuple)) else shift)
+    dx_eff = dx * spec.get("dx_scale", 1.0)
+    gs = tuple(int(v) for v in (np.array(grid_size) + np.array(spec.get("grid_delta", [0] * dim))))
     cls = spec["io_class"]
     if cls == "EulerianFieldIO":
-        axes = [np.arange(n) * dx + dx / 2 for n in grid_size]
+        axes = [np.arange(n) * dx_eff + o for n, o in zip(gs, origin)]
         pos = np.flipud(np.array(np.meshgrid(*axes, indexing="ij"))).astype(dtype)
         fields = {}
         for j in range(ns):
-            fields[_names(naming, "es", 0, j)] = _fill_l(grid_size, dtype, content, k + j)
+            fields[_names(naming, "es", 0, j)] = _fill_l(gs, dtype, content, k + j)
         for j in range(nv):
-            fields[_names(naming, "ev", 0, j)] = _fill_l((dim, *grid_size), dtype, content, k + 10 + j)
+            fields[_names(naming, "ev", 0, j)] = _fill_l((dim, *gs), dtype, content, k + 10 + j)
         io = spu.EulerianFieldIO(position_field=pos, eulerian_fields_dict=fields)
         for n_, a in fields.items():
             arrays[("E", n_)] = a
-        return io, arrays, {"grid_size": grid_size, "dx": dx}
+        return io, arrays, {"grid_size": gs, "dx": dx_eff}
     io = spu.IO(dim=dim, real_dtype=io_dtype)
     if ns + nv > 0:
-        io.define_eulerian_grid(origin=origin * spec.get("origin_scale", 1.0) + spec.get("origin_shift", 0.0),
-                                dx=np.full(dim, dx) * spec.get("dx_scale", 1.0), grid_size=np.array(grid_size) + np.array(spec.get("grid_delta", [0] * dim)))
-        gs = tuple(int(v) for v in (np.array(grid_size) + np.array(spec.get("grid_delta", [0] * dim))))
+        io.define_eulerian_grid(origin=origin, dx=np.full(dim, dx_eff), grid_size=np.array(gs))
         fields = {}
         for j in range(ns):
             fields[_names(naming, "es", 0, j)] = _fill_l(gs, dtype, content, k + j)
@@ -227,7 +231,8 @@ def case_roundtrip(spec):
                         elif _bytes(f[p][...]) != _bytes(np.moveaxis(v, 0, -1)):
                             fails.append(Fail(f"{tag}:layout:lagrangian-vector-data", "stored Lagrangian vector bytes differ", path=p))
         # load into fresh arrays
-        io_b, arr_b, _ = build_registry(spec, 1)
+        # the loading registry may be of the OTHER Eulerian IO class describing the same grid
+        io_b, arr_b, _ = build_registry(dict(spec, io_class=spec.get("load_class", spec["io_class"])), 1)
         t = io_b.load(h5_file_name=fn)
         if np.float64(t).tobytes() != np.float64(time).tobytes():
             fails.append(Fail(f"{tag}:time", "time stamp not restored bit-exactly", saved=time, loaded=float(t)))
@@ -297,13 +302,17 @@ def case_rod(dim, dtype, n_elems):
 
 
 MISMATCHES = ["missing-eul-scalar", "missing-eul-vector", "missing-lag-scalar", "missing-lag-vector", "missing-grid", "missing-grid-no-fields",
-              "origin-shift", "dx-x2", "grid+1", "eul-scalar-vs-file-without-eulerian"]
+              "origin-shift", "origin-shift-first-axis", "origin-shift-last-axis", "dx-x2", "grid+1", "grid+1-first-axis", "eul-scalar-vs-file-without-eulerian"]
+EULERIAN_MISMATCHES = ["missing-eul-scalar", "missing-eul-vector", "origin-shift", "origin-shift-first-axis", "origin-shift-last-axis", "dx-x2", "grid+1", "grid+1-first-axis"]
+ORIGINS = {"default": None, "per-axis": [0.125, -0.75, 2.5]}  # coordinate of the first cell centre per array axis
 
 
-def case_mismatch(dim, dtype, kind):
+def case_mismatch(dim, dtype, kind, cls="IO", load_cls=None, origins="default"):
     fails = []
     d = _scratch()
-    base = dict(dim=dim, dtype=dtype, eul="s1v1", grids=[[1, 1, 4]], content="ordinary", naming="custom", io_class="IO")
+    base = dict(dim=dim, dtype=dtype, eul="s1v1", grids=[[1, 1, 4]] if cls == "IO" and (load_cls or cls) == "IO" else [], content="ordinary", naming="custom", io_class=cls)
+    if ORIGINS[origins] is not None:
+        base["pos_origins"] = ORIGINS[origins][:dim]
     load_spec = dict(base)
     save_spec = dict(base)
     if kind == "missing-eul-scalar":
@@ -322,6 +331,12 @@ def case_mismatch(dim, dtype, kind):
         load_spec["grids"] = [[0, 0, 4]]
     elif kind == "origin-shift":
         load_spec["origin_shift"] = 0.125
+    elif kind == "origin-shift-first-axis":  # the box moved along ONE axis only
+        load_spec["origin_shift"] = [0.125] + [0.0] * (dim - 1)
+    elif kind == "origin-shift-last-axis":
+        load_spec["origin_shift"] = [0.0] * (dim - 1) + [0.125]
+    elif kind == "grid+1-first-axis":
+        load_spec["grid_delta"] = [1] + [0] * (dim - 1)
     elif kind == "dx-x2":
         load_spec["dx_scale"] = 2.0
     elif kind == "grid+1":
@@ -332,6 +347,8 @@ def case_mismatch(dim, dtype, kind):
         io_a, _, _ = build_registry(save_spec, 0)
         fn = os.path.join(d, "chk.h5")
         io_a.save(h5_file_name=fn, time=2.0)
+        if load_cls is not None:
+            load_spec["io_class"] = load_cls
         io_b, _, _ = build_registry(load_spec, 1)
         raised = None
         try:
@@ -339,10 +356,10 @@ def case_mismatch(dim, dtype, kind):
         except Exception as e:  # noqa: BLE001  any exception type counts as rejection
             raised = type(e).__name__
         if raised is None:
-            fails.append(Fail(f"mismatch:{kind}", "load() returned normally although the file does not match the registered fields/grid", dim=dim, dtype=dtype))
+            fails.append(Fail(f"mismatch:{kind}", "load() returned normally although the file does not match the registered fields/grid", dim=dim, dtype=dtype, saved_with=cls, loaded_with=load_cls or cls, origins=origins))
     finally:
         shutil.rmtree(d, ignore_errors=True)
-    return CaseResult(fails=fails, states=1, transitions=2, traces=1, outcome=f"mismatch:{kind}:{raised}")
+    return CaseResult(fails=fails, states=1, transitions=2, traces=1, outcome=f"mismatch:{kind}:{cls}:{load_cls}:{origins}:{raised}")
 
 
 CASES = {"roundtrip": case_roundtrip, "rod": case_rod, "mismatch": case_mismatch}
@@ -386,9 +403,23 @@ def run(r) -> None:
         specs.append(dict(spec=dict(dim=dim, dtype=dt, eul="s1v1", grids=[[1, 1, 4]] if cls == "IO" else [], content="ordinary", naming="custom", io_class=cls, layout=lay)))
     for dim, dt, eul, content in itertools.product((2, 3), ("float64", "float32"), ("s1", "v1", "s1v1", "s2v2"), CONTENT if not quick else CONTENT[:3]):
         specs.append(dict(spec=dict(dim=dim, dtype=dt, eul=eul, grids=[], content=content, naming="custom", io_class="EulerianFieldIO")))
+    # boxes whose first cell centre differs per axis, saved with one Eulerian IO class and loaded with either
+    for dim, dt, a, b in itertools.product((2, 3), ("float64", "float32"), ("IO", "EulerianFieldIO"), ("IO", "EulerianFieldIO")):
+        for o in ORIGINS:
+            if o == "default" and a == b:
+                continue
+            sp_ = dict(dim=dim, dtype=dt, eul="s1v1", grids=[], content="ordinary", naming="custom", io_class=a, load_class=b)
+            if ORIGINS[o] is not None:
+                sp_["pos_origins"] = ORIGINS[o][:dim]
+            specs.append(dict(spec=sp_))
     r.run_cases("roundtrip", "roundtrip", specs, chunksize=8)
     r.run_cases("rod-io", "rod", [dict(dim=d, dtype=dt, n_elems=n) for d in (2, 3) for dt in ("float64", "float32") for n in (2, 3, 5)])
-    r.run_cases("mismatch", "mismatch", [dict(dim=d, dtype=dt, kind=k) for d in (2, 3) for dt in ("float64", "float32") for k in MISMATCHES])
-    r.bounds = {"lattice_axes": {k: len(v) for k, v in axes.items()}, "deviation": 2 if quick else 3, "roundtrip_cases": len(specs), "mismatch_kinds": MISMATCHES}
+    mm = [dict(dim=d, dtype=dt, kind=k) for d in (2, 3) for dt in ("float64", "float32") for k in MISMATCHES]
+    # Eulerian mismatches for every (saving class, loading class) pair, on the default box and on a box whose
+    # first cell centre differs per axis
+    mm += [dict(dim=d, dtype=dt, kind=k, cls=a, load_cls=b, origins=o) for d in (2, 3) for dt in ("float64", "float32") for k in EULERIAN_MISMATCHES
+           for a in ("IO", "EulerianFieldIO") for b in ("IO", "EulerianFieldIO") for o in ORIGINS if not (a == b == "IO" and o == "default")]
+    r.run_cases("mismatch", "mismatch", mm)
+    r.bounds = {"lattice_axes": {k: len(v) for k, v in axes.items()}, "deviation": 2 if quick else 3, "roundtrip_cases": len(specs), "mismatch_kinds": MISMATCHES, "eulerian_class_pairs": "IO / EulerianFieldIO x IO / EulerianFieldIO", "box_origins": ORIGINS}
     r.extra["rule"] = "one state per registry configuration (save -> inspect layout -> load into fresh arrays -> byte compare); mismatch: one deviation of the loading registry at a time"
     r.assumptions = ["h5py/HDF5 as the storage layer; scratch files under $TMPDIR or /var/tmp, removed by the check"]
